@@ -198,7 +198,14 @@ func exchangeAfterBase(base string, earlier runtime.ClientAuthInfoWriter, op *ru
 	}
 	rt.DefaultAuthentication = def
 	var err error
-	if v := kit.Guard("Runtime.Submit -> authenticator", func() { _, err = rt.Submit(op) }); v != nil {
+	var via runtime.ClientTransport = rt
+	if tracedTransport {
+		// the application wraps its transport for tracing and gives its operations a context: credentials are none of
+		// the wrapper's business (r9)
+		via = rt.WithOpenTracing()
+		op.Context = context.Background()
+	}
+	if v := kit.Guard("Runtime.Submit -> authenticator", func() { _, err = via.Submit(op) }); v != nil {
 		return v
 	}
 	if err != nil {
@@ -713,16 +720,21 @@ type DefaultCase struct {
 	// SameOp: that earlier request was made with the very *ClientOperation value of this one (a caller that builds
 	// its operation once and submits it again). (r6)
 	SameOp bool `json:"same_op,omitempty"`
+	// Traced: the request is submitted through Runtime.WithOpenTracing() with a context on the operation. (r9)
+	Traced bool `json:"traced,omitempty"`
 }
 
 // earlierWithSameOp: see DefaultCase.SameOp (set for the duration of one case, like debugTransport).
 var earlierWithSameOp bool
 
+// tracedTransport: see DefaultCase.Traced.
+var tracedTransport bool
+
 // CheckDefault: the default credential is applied iff the operation has no writer of its own and no
 // Authorization header is already set; what the server authenticators recover is exactly the effective credential.
 func CheckDefault(c DefaultCase) *kit.Violation {
-	debugTransport, earlierWithSameOp = c.Debug, c.SameOp
-	defer func() { debugTransport, earlierWithSameOp = false, false }()
+	debugTransport, earlierWithSameOp, tracedTransport = c.Debug, c.SameOp, c.Traced
+	defer func() { debugTransport, earlierWithSameOp, tracedTransport = false, false, false }()
 	var got recovered
 	var authz []string
 	calls := 0
